@@ -250,15 +250,7 @@ def hashseed_runs(ccs):
 class HashSeedReplay:
     def native_agree(self, wit):
         from props.ibantasks import table
-        deny = [e for e in sorted(ext) if e.split(".")[0] in ("random", "time", "os", "uuid", "secrets", "datetime")
-            or e.startswith(("builtins.hash", "builtins.id"))]
-    results.append(dict(task="sources of nondeterminism", functions={}, files={}, paths=0, error=None, spec=None, obligations=[dict(
-        name="the call tree of BBAN.random draws only from the caller's generator: no call into random/time/os/uuid/"
-             f"secrets, hash() or id() (external callables seen: {sorted(ext)})", kind="vc",
-        status="discharged" if not deny else "refuted", backend="pyvc call log (all symbolic paths)", secs=0.0,
-        witness={"calls": deny} if deny else None,
-        detail="" if not deny else f"replayed natively: the symbolic run executed {deny}")]))
-    res, err = hashseed_runs([wit["call"].split("/")[0]])
+        res, err = hashseed_runs([wit["call"].split("/")[0]])
         return (res is not None and not res[0]), res and res[0][:1], "identical outputs"
 
 
